@@ -263,13 +263,40 @@ def cap_source(F, R):
             if name == 'v5-server':
                 fam = F.family(b)
                 mins = [1 for x in fam for _ in x.calls_to(r'^std::cmp::min$')]
-                R.ob('C05.cap-source', 'v5-server|set_cap=min(..)', bool(mins), 'the window must be the minimum of the configured max_send and the peer Receive Maximum')
             if name == 'v5-server':
                 # every value that can reach set_cap is the bounded one: following copies/casts and the merges of branches,
                 # each terminal definition is `min(.., peer Receive Maximum)` or `peer.map_or(.., |v| min(.., v))`; a branch
                 # that hands on an override (ack.max_send) without the `min` lets the window exceed what the peer announced
                 terms = reaching_defs(b, t['args'][1])
                 unb = []
+                # hand-written bounds: edges on which the travelling value is known not to exceed the peer's limit - the None edge
+                # of a test of the peer's Receive Maximum (no limit announced) and the side of a comparison `other <= peer`
+                safe_edges = set()
+                for sb_ in sorted(b.live):
+                    tt_ = b.blocks[sb_]['term']
+                    if tt_['k'] != 'switch':
+                        continue
+                    pl_ = op_place(tt_['discr'])
+                    for dd_ in (b.whole_defs(pl_['l']) if pl_ and not place_proj(pl_) else []):
+                        if dd_[2] != 'assign':
+                            continue
+                        rv_ = dd_[3]['rv']
+                        tg_ = dict((v_, x2_) for v_, x2_ in tt_['targets'])
+                        if rv_['k'] == 'discr' and 'receive_max' in origin_field_names(F, b, {'cp': rv_['place']}, wide):
+                            if tg_.get(0, tt_['otherwise']) != tg_.get(1, tt_['otherwise']):
+                                safe_edges.add((sb_, tg_.get(0, tt_['otherwise'])))
+                        elif rv_['k'] == 'bin' and rv_['op'] in ('Lt', 'Le', 'Gt', 'Ge') and dd_[0] == sb_:
+                            ra_ = op_place(rv_['a']) is not None and 'receive_max' in origin_field_names(F, b, rv_['a'], wide)
+                            rb_ = op_place(rv_['b']) is not None and 'receive_max' in origin_field_names(F, b, rv_['b'], wide)
+                            if ra_ == rb_:
+                                continue
+                            # side on which the non-peer operand is <= the peer's value
+                            good_true = (rv_['op'] in ('Gt', 'Ge')) if ra_ else (rv_['op'] in ('Lt', 'Le'))
+                            tt2_, ft2_ = (tt_['otherwise'], tg_.get(0)) if 0 in tg_ else (tg_.get(1), tt_['otherwise'])
+                            if tt2_ is not None and ft2_ is not None and tt2_ != ft2_:
+                                safe_edges.add((sb_, tt2_ if good_true else ft2_))
+                succ_cut_ = [[x_ for x_ in b.succ[i_] if (i_, x_) not in safe_edges] for i_ in range(len(b.succ))] if safe_edges else None
+                open_ = b.reachable(0, succ=succ_cut_) if succ_cut_ else None
                 for kind_, xb_, x_, via_ in terms:
                     okd = False
                     if kind_ == 'call':
@@ -280,24 +307,20 @@ def cap_source(F, R):
                             recv_ok = 'receive_max' in origin_field_names(F, b, x_['args'][0], wide)
                             clos_ = [c_ for c_ in F.descendants(b) if any(True for _ in c_.calls_to(r'(^std::cmp::min$|::min$)'))]
                             okd = recv_ok and bool(clos_)
-                    if not okd:
-                        # no peer limit announced: the definition sits on the None side of a test of the peer's Receive Maximum
-                        for sb_ in sorted(b.live):
-                            tt_ = b.blocks[sb_]['term']
-                            if tt_['k'] != 'switch' or okd:
-                                continue
-                            pl_ = op_place(tt_['discr'])
-                            for dd_ in (b.whole_defs(pl_['l']) if pl_ else []):
-                                if dd_[2] == 'assign' and dd_[3]['rv']['k'] == 'discr' and 'receive_max' in origin_field_names(F, b, {'cp': dd_[3]['rv']['place']}, wide):
-                                    tg_ = dict((v_, x2_) for v_, x2_ in tt_['targets'])
-                                    none_t_, some_t_ = tg_.get(0, tt_['otherwise']), tg_.get(1, tt_['otherwise'])
-                                    none_side_ = b.reachable(none_t_, avoid=[some_t_]) - b.reachable(some_t_, avoid=[none_t_])
-                                    if none_t_ != some_t_ and any(v_ in none_side_ for v_ in via_):
-                                        okd = True
+                    if not okd and kind_ in ('call', 'arg', 'use', 'cast') and via_:
+                        # the value is the peer's own limit (nothing else flows into it)
+                        src_ = x_['dest'] if kind_ == 'call' else None
+                        if src_ is not None and (lambda ns_: 'receive_max' in ns_ and not (ns_ & {'max_send', 'cfg'}))(origin_field_names(F, b, {'cp': src_}, wide)) and not re.search(r'(unwrap_or|map_or)', callee_name(x_) or ''):
+                            okd = True
+                    if not okd and open_ is not None and any(v_ not in open_ for v_ in via_):
+                        # the copy that carries it sits behind a None-edge / `other <= peer` edge on every path
+                        okd = True
                     if not okd:
                         unb.append((kind_, xb_))
                 R.ob('C05.cap-source', 'v5-server|every-value-reaching-set_cap-is-bounded-by-the-peer-receive-maximum', bool(terms) and not unb,
                      'a value can reach set_cap() that was not passed through min(.., CONNECT Receive Maximum) (%d of %d reaching definitions): on that branch the send window can exceed what the peer allows' % (len(unb), len(terms)), b.loc(unb[0][1]) if unb else b.loc(bi))
+                R.ob('C05.cap-source', 'v5-server|set_cap=min(..)', bool(mins) or (bool(terms) and not unb and bool(safe_edges)),
+                     'the window must be the minimum of the configured max_send and the peer Receive Maximum')
             consts = [l for l in Origin(b, transparent=wide).of_operand(t['args'][1]) if l[0] == 'const']
             R.ob('C05.cap-source', '%s|set_cap-not-literal' % name, not consts, 'literal window %s' % consts, b.loc(bi))
 
